@@ -13,7 +13,13 @@ pub struct TapeSpec {
     pub label: String,
     pub pos: usize,
     pub fork: Option<(String, usize)>,
+    /// the generator fails for every draw that would read byte `fail_at` or beyond
+    #[serde(default)]
+    pub fail_at: Option<usize>,
 }
+/// panic message prefix of a failing tape's infallible draw (recognised by the API monitor: an RNG failure, not a
+/// panic of the library)
+pub const TAPE_FAULT: &str = "TAPE-FAULT";
 
 #[derive(Clone)]
 struct Stream {
@@ -48,6 +54,8 @@ pub struct Tape {
     label: String,
     main: Stream,
     alt: Option<(String, Stream, usize)>,
+    /// fault injection: draws reaching this byte position fail (try_fill_bytes -> Err, fill_bytes -> panic, as OsRng)
+    pub fail_at: Option<usize>,
     /// absolute position (bytes drawn since the start of the stream)
     pub pos: usize,
     /// draws made through this handle: (offset, bytes)
@@ -56,7 +64,7 @@ pub struct Tape {
 
 impl Tape {
     pub fn new(label: &str) -> Self {
-        Tape { label: label.to_string(), main: Stream::new(label), alt: None, pos: 0, log: vec![] }
+        Tape { label: label.to_string(), main: Stream::new(label), alt: None, fail_at: None, pos: 0, log: vec![] }
     }
     /// tape for `label` derived from the global seed (VERIF_SEED)
     pub fn seeded(seed: u64, label: &str) -> Self {
@@ -74,7 +82,7 @@ impl Tape {
         t
     }
     pub fn spec(&self) -> TapeSpec {
-        TapeSpec { label: self.label.clone(), pos: self.pos, fork: self.alt.as_ref().map(|(l, _, a)| (l.clone(), *a)) }
+        TapeSpec { label: self.label.clone(), pos: self.pos, fork: self.alt.as_ref().map(|(l, _, a)| (l.clone(), *a)), fail_at: self.fail_at }
     }
     pub fn from_spec(s: &TapeSpec) -> Self {
         let mut t = match &s.fork {
@@ -82,6 +90,7 @@ impl Tape {
             None => Tape::new(&s.label),
         };
         t.pos = s.pos;
+        t.fail_at = s.fail_at;
         t
     }
     pub fn label(&self) -> &str {
@@ -116,6 +125,11 @@ impl RngCore for Tape {
         u64::from_le_bytes(b)
     }
     fn fill_bytes(&mut self, dest: &mut [u8]) {
+        if let Some(f) = self.fail_at {
+            if self.pos + dest.len() > f {
+                panic!("{}: the random generator failed at byte {}", TAPE_FAULT, f);
+            }
+        }
         let start = self.pos;
         for d in dest.iter_mut() {
             let i = self.pos;
@@ -128,6 +142,11 @@ impl RngCore for Tape {
         self.log.push((start, dest.to_vec()));
     }
     fn try_fill_bytes(&mut self, dest: &mut [u8]) -> Result<(), rand::Error> {
+        if let Some(f) = self.fail_at {
+            if self.pos + dest.len() > f {
+                return Err(rand::Error::new(TAPE_FAULT));
+            }
+        }
         self.fill_bytes(dest);
         Ok(())
     }
